@@ -29,7 +29,7 @@ import (
 var c07Breaks = []string{
 	"none", "no-secret", "no-payload", "no-transport", "disabled-transport", "unknown-transport", "unknown-generation",
 	"station-v4-off", "station-v6-off", "client-no-v4", "client-no-v6", "ipv6-registrant", "phantom-blocklisted",
-	"forbidden-covert", "malformed-covert", "live-phantom", "prescanned+live", "override-phantom", "override-to-blocklisted", "override-port", "mapped-override-ipv6-registrant",
+	"forbidden-covert", "malformed-covert", "live-phantom", "prescanned+live", "override-phantom", "override-to-blocklisted", "override-port", "mapped-override-ipv6-registrant", "mapped-override-live", "explicit-prescanned-false",
 }
 
 var c07Sources = []pb.RegistrationSource{pb.RegistrationSource_API, pb.RegistrationSource_Detector, pb.RegistrationSource_BidirectionalAPI, pb.RegistrationSource_DNS, pb.RegistrationSource_DetectorPrescan}
@@ -184,6 +184,15 @@ func c07Scenario(r *sim.Run) {
 					c.v4 = false
 					c.regAddr = net.ParseIP("2001:db8:99::1")
 				}
+				if m.breaks["mapped-override-live"] {
+					// the registrar response carries an IPv4-mapped address in its IPv6 override field, the
+					// registrant is IPv4, and the host behind that (IPv4) phantom answers the probe
+					for k := range m.breaks {
+						if k != "mapped-override-live" {
+							delete(m.breaks, k)
+						}
+					}
+				}
 				if m.breaks["ipv6-registrant"] {
 					c.regAddr = net.ParseIP("2001:db8:99::1")
 				}
@@ -198,6 +207,9 @@ func c07Scenario(r *sim.Run) {
 				}
 				if m.breaks["prescanned+live"] || c.source == pb.RegistrationSource_DetectorPrescan {
 					c.flags = &pb.RegistrationFlags{Prescanned: proto.Bool(true)}
+				} else if m.breaks["explicit-prescanned-false"] {
+					// not a break of an admission condition: the client spells the default out
+					c.flags = &pb.RegistrationFlags{Prescanned: proto.Bool(false)}
 				}
 				m.phantom = [2]net.IP{c.phantom(false), c.phantom(true)}
 				overridePort := uint32(0)
@@ -234,6 +246,11 @@ func c07Scenario(r *sim.Run) {
 						wr.RegistrationResponse = &pb.RegistrationResponse{Ipv6Addr: mapped}
 						m.phantom = [2]net.IP{nil, mapped}
 					}
+					if m.breaks["mapped-override-live"] {
+						mapped := net.IPv4(192, 0, 2, 97).To16()
+						wr.RegistrationResponse = &pb.RegistrationResponse{Ipv6Addr: mapped}
+						m.phantom = [2]net.IP{m.phantom[0], mapped}
+					}
 					if m.breaks["no-payload"] {
 						wr.RegistrationPayload = nil
 					}
@@ -259,6 +276,12 @@ func c07Scenario(r *sim.Run) {
 			w.rm.RegConfig.PhantomBlocklist = bl
 			w.rm.RegConfig.ParseBlocklists()
 			live := m.breaks["live-phantom"] || m.breaks["prescanned+live"]
+			if m.breaks["mapped-override-live"] {
+				w.mu.Lock()
+				w.live[m.phantom[1].To4().String()] = true
+				w.liveCached = tp.Bool("live-verdict-from-cache")
+				w.mu.Unlock()
+			}
 			if live && m.phantom[0] != nil {
 				w.mu.Lock()
 				w.live[m.phantom[0].String()] = true
@@ -285,8 +308,14 @@ func c07Scenario(r *sim.Run) {
 				}
 				pre := complete && transportOK && genOK && famOK && covertOK
 				needsProbe := fam == 0 && !prescanned
+				famLive := live
+				if m.breaks["mapped-override-live"] && fam == 1 {
+					// the "IPv6" phantom of this message is the IPv4 address 192.0.2.97: it needs the
+					// probe like any IPv4 phantom, and the host behind it answers
+					needsProbe, famLive = !prescanned, true
+				}
 				m.needs[fam] = needsProbe
-				m.expect[fam] = pre && !blocked && (!needsProbe || !live)
+				m.expect[fam] = pre && !blocked && (!needsProbe || !famLive)
 				// a probe is licensed only for a registration that is otherwise admissible; a
 				// detector-sourced registration may be probed although its phantom is
 				// blocklisted locally (it is still to be passed on to peers)
@@ -427,28 +456,39 @@ func c07Scenario(r *sim.Run) {
 					}
 				}
 			}
-			// probes
+			// probes: only of a phantom that is an IPv4 address (an IPv4-mapped value in the IPv6 field
+			// is one), only when licensed, at most one per registration
+			nprobes := [2]int{}
 			for _, p := range probes {
-				if m.phantom[0] == nil || p.addr != m.phantom[0].String() {
-					if m.phantom[1] != nil && p.addr == m.phantom[1].String() {
-						r.Fail("C07/unneeded-probe/ipv6/"+circ, "%s: an IPv6 phantom was probed", label)
-						return
+				fam := -1
+				for f := 0; f < 2; f++ {
+					if m.phantom[f] != nil && p.addr == m.phantom[f].String() {
+						fam = f
 					}
+				}
+				if fam < 0 {
 					r.Fail("C07/probe-other-address/"+circ, "%s: probe of %s, not the registration's phantom", label, p.addr)
 					return
 				}
-				if !m.probeOK[0] {
+				if m.phantom[fam].To4() == nil {
+					r.Fail("C07/unneeded-probe/ipv6/"+circ, "%s: an IPv6 phantom was probed", label)
+					return
+				}
+				if !m.probeOK[fam] {
 					r.Fail("C07/unneeded-probe/"+c07First(m.breaks)+"/"+circ, "%s: a liveness probe was sent although none is required (prescanned=%v, or another condition already fails)", label, prescanned)
 					return
 				}
+				nprobes[fam]++
 			}
-			if len(probes) > 1 {
-				r.Fail("C07/probed-twice/"+circ, "%s: %d probes for one registration", label, len(probes))
-				return
-			}
-			if m.expect[0] && m.needs[0] && len(probes) != 1 {
-				r.Fail("C07/admitted-without-probe/"+circ, "%s: the IPv4 registration was admitted without the liveness probe it needs", label)
-				return
+			for fam := 0; fam < 2; fam++ {
+				if nprobes[fam] > 1 {
+					r.Fail("C07/probed-twice/"+circ, "%s: %d probes for one registration", label, nprobes[fam])
+					return
+				}
+				if m.expect[fam] && m.needs[fam] && nprobes[fam] != 1 {
+					r.Fail("C07/admitted-without-probe/"+circ, "%s: the registration on the IPv4 phantom %s was admitted without the liveness probe it needs", label, m.phantom[fam])
+					return
+				}
 			}
 			// peer API
 			if len(posts) > 1 {
